@@ -230,7 +230,9 @@ class SourceToSourceFileImportsTransformation(SourceToSourceTransformationBase):
             if self._import_block_precedes_line(block, max_lineno) ]
         if not annotated_blocks:
             raise NoImportBlockError()
-        annotated_blocks.sort()
+        # Sort by the annotation only.  (Blocks themselves aren't orderable;
+        # among equally good blocks prefer the later one.)
+        annotated_blocks.sort(key=lambda annotated_block: annotated_block[0])
         if imp.split.module_name == '__future__':
             # For __future__ imports, only add to an existing block that
             # already contains __future__ import(s).  If there are no existing
